@@ -1083,7 +1083,7 @@ def _run(ctx, quick, rng, workers, bg, f_pair):
     if okc:
         e = okc[len(okc) // 2]
         ctx.sample("EDGE %s: debian_revision = %s -> %s" % (fmt(e["from"]), show(e["args"][0]), fmt(e["to"])))
-    nwalks, wlen = (300, 25) if quick else (3000, 30)
+    nwalks, wlen = (300, 25) if quick else (2000, 30)
     keys = sorted(g.states)
     for w in range(nwalks):
         if n_bad >= 3:
@@ -1114,7 +1114,7 @@ def _run(ctx, quick, rng, workers, bg, f_pair):
     ctx.extra["model"].update({"pair_states": r_pair.distinct, "pair_max_full_len": 4 if quick else 5})
 
     # 5. (c) code -> spec: recorded constructions and assignment sequences validated by TLC
-    ntr = 1200 if quick else 12000
+    ntr = 1200 if quick else 8000
     traces = [record_trace(rng, ALLC[i % 4]) for i in range(ntr)]
     for i, t in enumerate(cross):
         traces.append(record_trace(rng, ALLC[i % 4], s=t, nops=rng.choice([0, 0, 3])))
